@@ -143,4 +143,47 @@ CHECKS = {
         'note': 'Trusted: return annotations; two triaged intended emptiness tests.',
         'design_ref': 'DESIGN.md section 3, C13',
     },
+    'C03': {
+        'level': 'other',
+        'technique': 'who-may-call table over call sites, loop-shape rule, single-writer/def-use rule for the symbol table, bounded-write rule',
+        'text': 'Decides the structural clauses on which "published = declared" rests: only the phase drivers call publish_*; the gamma '
+                'loop ranges over self._axioms after the imported modules and the claims loop over reversed(self._claims), publishing '
+                'interpreter.pattern(<loop variable>); the declared lists are append-only; optimisers neither override nor alter '
+                'publishing; the serializer has one symbol table (created in __init__, ids len(table) under a not-in guard, never '
+                'shrunk) shared by the three files through one serializer; all 26 writes are unmasked bytes([...]) so ids above 255 '
+                'raise. The emitted files are not decoded and compared.',
+        'note': 'Trusted: python ast; the MAY_PUBLISH table confirmed by reading.',
+        'design_ref': 'DESIGN.md section 3, C03',
+    },
+    'C09': {
+        'level': 'other',
+        'technique': 'def-use / reaching-store analysis over the nested saturation loop (ast)',
+        'text': 'One necessary clause of completeness of the resolution stage: the nested saturation loop forms every pair (same growing '
+                'list in both loops, diagonal guard, resolvents rejoin the list) and no assignment in the inner loop rebinds the outer '
+                'loop element on a path that reads it again. The stage lemmas are schema-checked under C10. Equivalence of each normal '
+                'form, proof reconstruction and "declines only when contingent" are data-dependent and are NOT decided.',
+        'note': 'Trusted: python ast. A single clause; the decision-procedure property as a whole is out of reach of static analysis.',
+        'design_ref': 'DESIGN.md section 3, C09',
+    },
+    'C15': {
+        'level': 'other',
+        'technique': 'literal-table check + iteration-order (set-typedness) analysis of the numbering loop',
+        'text': 'Two structural clauses of the compressed-proof decoder: the letter tables are exactly A..T->1..20 and U..Y->1..5 with '
+                'weights 20*5^i; mandatory hypotheses are numbered 1,2,.. from the insertion-ordered list of floating hypotheses '
+                '(database order), never from a set (hash-seed dependent) nor merely sorted. The numeric decoding of all step numbers, '
+                'Z placement and whitespace layouts are not decided.',
+        'note': 'Trusted: python ast; _floating_patterns is appended in database order.',
+        'design_ref': 'DESIGN.md section 3, C15',
+    },
+    'C18': {
+        'level': 'other',
+        'technique': 'iteration-order taint (set-typedness inference + consumer classification) over an import-scoped call graph; ambient-state lint',
+        'text': 'No hash-seed- or state-dependent value reaches an output: every iteration over a set/frozenset of non-int elements is '
+                'consumed order-insensitively (automatic rules or a reasoned triage entry) or is unreachable from the serialisation / '
+                'translation entry points; uses of id/hash/directory order/clock/randomness/environment are enumerated and triaged; no '
+                'mutable default arguments, no module- or class-level mutable state written from functions, no cache reading instance '
+                'state. Byte equality of outputs is never observed.',
+        'note': 'Trusted: annotations for set-typedness; spec/order_triage.py (9 reasoned entries); dict insertion order.',
+        'design_ref': 'DESIGN.md section 3, C18',
+    },
 }
